@@ -292,6 +292,27 @@ def make_cache(spec):
     raise ValueError(spec)
 
 
+def consume_decision(d, n):
+    """what a caller may do with the Decision it got: edit its obligations list in place (rotating: clear / pop /
+    reverse / append a note)"""
+    obs = getattr(d, "obligations", None)
+    if not isinstance(obs, list):
+        return
+    try:
+        m = n % 4          # list-level edits only: the obligation mappings themselves are the policy's own objects
+        if m == 0:
+            obs.clear()
+        elif m == 1 and obs:
+            obs.pop(0)
+        elif m == 2:
+            obs.reverse()
+        elif m == 3:
+            obs.append({"type": "zz_caller_note"})
+    except Exception:  # noqa: BLE001
+        pass
+
+
+
 def dec_dict(d):
     return {"allowed": d.allowed, "effect": d.effect, "obligations": d.obligations, "challenge": d.challenge,
             "rule_id": d.rule_id, "policy_id": d.policy_id, "reason": d.reason}
@@ -425,7 +446,11 @@ async def run_history(case, clock):
             w = op[1]
             n0 = len(cache.gets)
             try:
-                cd = dec_dict(await guards[w].evaluate_async(*call_args(op[2], lits)))
+                dobj = await guards[w].evaluate_async(*call_args(op[2], lits))
+                cd = copy.deepcopy(dec_dict(dobj))
+                # the caller CONSUMES what it was handed (a PEP that pops obligations while fulfilling them, sorts or
+                # annotates the list): the Decision is the caller's; nothing it does to it may reach later answers
+                consume_decision(dobj, len(out))
             except Exception as e:  # noqa: BLE001
                 cd = ["Raise", type(e).__name__]
             hit = bool(cache.gets[n0:] and cache.gets[-1])
